@@ -410,10 +410,10 @@ PROPS["C04"] = pbt(
     technique="coverage-guided fuzzing (libFuzzer, byte-level + structure-aware) and property-based near-grammar mutation (rapidcheck) with invariants inside the target",
     level_text=("fuzzing with semantic invariants inside the target (documented return codes, no object after a failed "
                 "read, NULL-terminated lists, determinism, inputs of a merge unchanged) under ASan/UBSan/LSan. Quick: "
-                "corpus replay + 2 targets x 4 processes x 40k runs + 64k near-grammar cases; thorough: 2 x 8 x 2M runs "
+                "corpus replay + 2 targets x 4 processes x 25k runs + 48k near-grammar cases; thorough: 2 x 8 x 2M runs "
                 "+ 3M near-grammar cases."),
     level_note="libFuzzer campaigns are only approximately reproducible from a seed; the saved artifact is the reproducible unit. Timeouts count only if reproducible at 10x the limit.",
-    quick={"cases": 64000, "fuzz_runs": 40000, "fuzz_jobs": 4},
+    quick={"cases": 48000, "fuzz_runs": 25000, "fuzz_jobs": 4},
     thorough={"cases": 3000000, "fuzz_runs": 2000000, "fuzz_jobs": 8},
     floors={"parsed_with_entries": 0.40, "rejected_with_parse_error": 0.05, "merged_pair": 0.15, "edited": 0.30},
 )
